@@ -102,16 +102,20 @@ def run(c, facts, tier):
         if name.startswith("S_"):
             c.ob("C02.type", "permission_flags::values", name, consts.get(name) == int(val, 8), "%s = %s; POSIX %s" % (name, oct(consts[name]) if consts.get(name) is not None else None, val), nontrivial=False)
     fo = facts.fn("FileType::octal")
-    body = rx.tail_expr(fo.body)
+    # the bits of each file type, evaluated (vlib/probe.py) — a match, a lookup table, an array indexed by discriminant …
+    from .. import probe as P
+
     tab = {}
-    if body is not None and body["k"] == "match":
-        for arm in body["arms"]:
-            for p in rx.pat_cases(arm["pat"]):
-                pv = rx.pat_variant(p)
-                if pv:
-                    tab[pv[0].split("::")[-1]] = rx.path_str(arm["body"])
+    for v in facts.variants("FileType"):
+        try:
+            r_ = P.Probe(facts, "FileType", fo.module).invoke(fo, ("enum", "FileType::%s" % v, []), [])
+            tab[v] = r_ if isinstance(r_, int) and not isinstance(r_, bool) else None
+        except (P.NoEval, P.Panic) as ex:
+            tab[v] = None
     for v, flag in posix["file_types"].items():
-        c.ob("C02.type", fo.key, v, tab.get(v) == "SFlag::" + flag, "FileType::%s → %s; POSIX %s" % (v, tab.get(v), flag), witness="-type %s" % {"Block": "b", "Character": "c", "Directory": "d", "Pipe": "p", "File": "f", "Link": "l", "Socket": "s"}[v] if tab.get(v) != "SFlag::" + flag else None)
+        want_ = consts.get(flag)
+        okv = tab.get(v) is not None and want_ is not None and tab[v] == want_
+        c.ob("C02.type", fo.key, v, okv, "FileType::%s → %s; POSIX %s = %s" % (v, oct(tab[v]) if tab.get(v) is not None else None, flag, oct(want_) if want_ is not None else None), witness="-type %s" % {"Block": "b", "Character": "c", "Directory": "d", "Pipe": "p", "File": "f", "Link": "l", "Socket": "s"}[v] if not okv else None)
     # the macro that defines the flags takes each value from `values::<same name>`
     mr = facts.macro_rules.get("bitflags")
     c.ob("C02.type", "permission_flags", "flag F has the value of constant F", mr is not None and "const$Flag=values::$Flag" in mr["raw"].replace(" ", ""), "bitflags! wrapper defines `const $Flag = values::$Flag`", nontrivial=False)
